@@ -30,6 +30,7 @@ EXPLANATION = (
     "are flushed completely before every request; R15 ODVariable.__len__ gives every data type its width (upload truncation uses it; shared with C04.R5); R16 readinto() stores the whole segment it consumed and reports its length; R14 structural assumptions shared by all properties: no class-level mutable object is mutated in place by instances, no method re-runs the constructor, logging statements cannot raise (typed eager formatting, divisions), no mutable default argument is kept or mutated, no new truth-value test of a None-able number, a look-up memory the pinned tree does not have is keyed by all its inputs (arithmetic keys folded over a grid of addresses) and, on the serving side, emptied somewhere."
     ' R1 also: index / subindex reach the request unchanged (re-bound only to translate a name).'
     ' R6 also: the stream is marked done before the last segment is exchanged; R11 also: a response longer than the declared size is cut (size conditions evaluated).'
+    ' R16 also: the buffer SdoClient.open() gives the BufferedReader holds a whole segment for every accepted buffering value (folded for 2..8, 64, 1024, -1); R6 also: the last-segment predicate is decided by value over (size, pos, bytes).'
 )
 ASSUMPTIONS = [
     "not decided: byte equality for every payload length and chunking; io.BufferedWriter/Reader/TextIOWrapper behaviour",
